@@ -205,6 +205,16 @@ def check32(m: str, even: bool, acc: Acc, sample=False):
         if e3.to01() != ref_encode32(m, not even):
             acc.violation("sb32_matrix_form_ignores_the_requested_parity_variant", {**case, "got": e3.to01(), "want": ref_encode32(m, not even)},
                           "encode(matrix of the even codeword, even_parity=False) is not the odd codeword of the same message (or vice versa)")
+        if even:
+            # the same two calls with the parity argument left out on both sides (the documented default: even parity)
+            e4 = VBPTC3211.encode(bitarray(m))
+            e5 = VBPTC3211.encode(VBPTC3211.deinterleave_all_bits(e4))
+            calls += 3
+            if e4.to01() != e:
+                acc.violation("sb32_default_parity_is_not_even", {**case, "got": e4.to01()}, "encode(m) without the parity argument is not the even-parity codeword")
+            if e5.to01() != e4.to01():
+                acc.violation("sb32_reencode_of_full_matrix_differs_with_parity_argument_left_out", {**case, "message_form": e4.to01(), "matrix_form": e5.to01()},
+                              "encode(deinterleave_all_bits(encode(m))) != encode(m) when both calls leave the parity argument at its default")
     except Exception as ex:
         acc.violation("exception:" + exc_sig(ex), case, repr(ex))
     acc.case(nontrivial=True, calls=calls, outcome=(outcome, even), sample=case if sample else None)
